@@ -46,6 +46,15 @@ def gen_tensor_case(r, cid):
             data.append(round(r.uniform(-3, 3), 3))
     nsamp = r.randint(1, k)
     sampled = r.sample(names, nsamp)
+    if r.random() < 0.25:
+        # rows (batch elements) on very different log scales: each row must be normalised on its own
+        lead = sizes[0]
+        per = n // lead
+        for i in range(lead):
+            off = r.choice([0.0, -900.0, 800.0, -1500.0])
+            for j in range(per):
+                if data[i * per + j] is not None:
+                    data[i * per + j] = round(data[i * per + j] + off, 3)
     nsi = r.choice([0, 0, 1, 1, 2])
     sample_inputs = [["p%d" % i, r.choice([1, 2, 3])] for i in range(nsi)]
     return {"kind": "tensor", "cid": cid, "names": names, "sizes": sizes, "data": data, "sampled": sampled, "sample_inputs": sample_inputs}
@@ -138,6 +147,7 @@ def gen_delta_case(r, cid):
         "ld": r.choice([0.0, 0.0, round(r.uniform(-2, 2), 3)]),
         "batch": r.choice([0, 1, 2]),
         "g": r.choice(["poly", "tensorfn", "exp"]),
+        "joint": r.choice([None, None, "number", "tensor"]),
     }
 
 
@@ -803,6 +813,52 @@ def _check_delta(case, stats):
     if msg is not None:
         raise Violation("delta-integrate", "Integrate(Delta, g, v) differs from exp(ld) * g(v=x): " + msg)
     stats["identities"] += 4
+    # (f5), (f6): a joint Delta over two names, reduced / integrated over ONE of them: the other
+    # name stays a point mass (value at its point, nothing elsewhere)
+    if case.get("joint") and not intpoint and not vector:
+        pu = funsor.Tensor(np.asarray(0.7 - 0.2 * np.arange(int(np.prod(bshape) or 1)).reshape(bshape)), binputs) if case["joint"] == "tensor" else funsor.Number(0.7)
+        u = funsor.Variable("u", funsor.Real)
+        joint = d + Delta("u", pu, funsor.Number(0.0))
+        h = gfun * (u + 2.0)
+        at_u, off_u = pu, pu + 0.5
+        try:
+            res = Integrate(joint, h, frozenset([v]))
+            if "u" not in res.inputs:
+                raise Violation("delta-integrate", "Integrate(Delta over v and u, h(v, u), {v}) lost the input u: inputs %s" % (sorted(res.inputs),))
+            lhs_at, lhs_off = res(u=at_u), res(u=off_u)
+            rhs_at = h(v=x, u=at_u)
+            if wsub:
+                lhs_at, lhs_off, rhs_at = lhs_at(**wsub), lhs_off(**wsub), rhs_at(**wsub)
+            msg = oracle.compare(funsor.reinterpret(rhs_at), funsor.reinterpret(lhs_at))
+            if msg is None:
+                axes, vals = oracle.denote(funsor.reinterpret(lhs_off))
+                if not np.all(np.asarray(vals) == 0.0):
+                    msg = "away from the remaining point u the integral is %r, not 0" % (np.asarray(vals).ravel()[:4].tolist(),)
+        except (oracle.Declined, ValueError, NotImplementedError, AssertionError, TypeError):
+            stats["declined"] += 1
+            msg = None
+        if msg is not None:
+            raise Violation("delta-integrate", "Integrate(joint Delta over v and u, h, {v}): " + msg)
+        try:
+            res = (joint + h).reduce(ops.logaddexp, "v")
+            if "u" not in res.inputs:
+                raise Violation("delta-reduce", "(joint Delta + h).reduce(logaddexp, v) lost the input u: inputs %s" % (sorted(res.inputs),))
+            lhs_at, lhs_off = res(u=at_u), res(u=off_u)
+            rhs_at = h(v=x, u=at_u)
+            if wsub:
+                lhs_at, lhs_off, rhs_at = lhs_at(**wsub), lhs_off(**wsub), rhs_at(**wsub)
+            msg = oracle.compare(funsor.reinterpret(rhs_at), funsor.reinterpret(lhs_at))
+            if msg is None:
+                axes, vals = oracle.denote(funsor.reinterpret(lhs_off))
+                if not np.all(np.asarray(vals) == -np.inf):
+                    msg = "away from the remaining point u the reduced term is %r, not -inf" % (np.asarray(vals).ravel()[:4].tolist(),)
+        except (oracle.Declined, ValueError, NotImplementedError, AssertionError, TypeError):
+            stats["declined"] += 1
+            msg = None
+        if msg is not None:
+            raise Violation("delta-reduce", "(joint Delta over v and u + h).reduce(logaddexp, v): " + msg)
+        stats["identities"] += 2
+        stats["joint_deltas"] = stats.get("joint_deltas", 0) + 1
 
 
 def _prefix(r):
@@ -959,6 +1015,7 @@ def run_cases(payload):
                 tot[k] += st[k]
             tot["montecarlo_integrals"] = tot.get("montecarlo_integrals", 0) + st.get("montecarlo_integrals", 0)
             tot["mixtures"] = tot.get("mixtures", 0) + st.get("mixtures", 0)
+            tot["joint_deltas"] = tot.get("joint_deltas", 0) + st.get("joint_deltas", 0)
             tot["reference_marginals"] = tot.get("reference_marginals", 0) + st.get("reference_marginals", 0)
             tot["reference_silent"] = tot.get("reference_silent", 0) + st.get("reference_silent", 0)
             for k, v in st["edge_draws"].items():
@@ -1099,6 +1156,7 @@ def summarize(jobs, results, tier):
         "identities_checked": tot.get("identities", 0),
         "montecarlo_integrate_consistency_checks": tot.get("montecarlo_integrals", 0),
         "gaussian_mixture_samples_checked": tot.get("mixtures", 0),
+        "joint_delta_cases_checked": tot.get("joint_deltas", 0),
         "gaussian_sample_masses_compared_with_closed_form": tot.get("reference_marginals", 0),
         "gaussian_sample_masses_where_closed_form_is_silent": tot.get("reference_silent", 0),
         "sample_points_checked_in_support": tot.get("points_checked", 0),
